@@ -300,7 +300,7 @@ func joinFilter(a []any, sep func(string) string) any {
 	s := sep(" ")
 	for _, v := range a {
 		if v != nil {
-			ss = append(ss, fmt.Sprint(values.DeepToLiquid(v)))
+			ss = append(ss, values.Sprint(values.DeepToLiquid(v)))
 		}
 	}
 	return strings.Join(ss, s)
